@@ -1,1 +1,220 @@
-import EventppVerif.Q.Machine
+import EventppVerif.Q.Demo
+/-
+  Property C05 — every enqueued event is processed exactly once, with its arguments, in order.
+
+  Model: Q/Machine.lean.  Every event gets a ghost sequence number at `enqueue`
+  (`seq = nextSeq`); the trace records `consumed seq how` when the event leaves for good
+  (0 = its dispatch by a processing call has ended, 1 = `takeEvent`, 2 = `clearEvents`).
+
+  All theorems quantify over every behaviour `b` of listeners, filters and predicates (arbitrary
+  programs that may enqueue, process, take, clear … re-entrantly to any depth), every program and
+  every reachable configuration (`Reachable`, Q/Inv.lean; by `C05_reachable_runN` these are the
+  configurations `runN` produces from an initial one).  `C05_exactly_once`, `C05_args_intact` and
+  `C05_results` hold for every ordering policy, `C05_fifo` is about the `std::list` policy
+  (`ordered = none`).
+  Proofs: Q/InvView.lean (abstract transitions), Q/InvProofs.lean (the machine), Q/InvCor.lean.
+-/
+namespace Evp.Q
+open Evp
+
+theorem C05_reachable_runN (b : QBeh) (n : Nat) (c0 : QCfg) (h0 : Init c0) :
+    Reachable b (QCfg.runN b n c0).1 := (Reachable.init h0).runN n
+
+/-! ### exactly once -/
+
+/-- **C05 (exactly once).** In every reachable configuration the sequence numbers of the events
+    pending in the queue, of the events held by running processing calls and of the consumed
+    events are, together, a permutation of `0 … nextSeq-1`: every event ever enqueued is either
+    still pending, or held by exactly one running processing call, or was consumed exactly once
+    (dispatched by exactly one processing call, or taken by one `takeEvent`, or discarded by one
+    `clearEvents`) — never lost, never processed twice, whatever the callbacks do. -/
+theorem C05_exactly_once (b : QBeh) (c : QCfg) (h : Reachable b c) :
+    (seqsOf c.queue ++ seqsOf c.inflight ++ consumedSeqs c.trace).Perm (List.range c.nextSeq) :=
+  h.once_perm
+
+/-- In particular there are no duplicates … -/
+theorem C05_no_duplicates (b : QBeh) (c : QCfg) (h : Reachable b c) :
+    (seqsOf c.queue ++ seqsOf c.inflight ++ consumedSeqs c.trace).Nodup :=
+  h.once_nodup
+
+/-- … an event that is still stored has not been consumed (a dispatch is recorded when it has
+    ended, at the moment `endDispatch` clears the slot) … -/
+theorem C05_stored_not_consumed (b : QBeh) (c : QCfg) (h : Reachable b c) (s : Slot) (e : QEvent)
+    (hs : s ∈ c.queue ++ c.inflight) (he : s.ev = some e) : e.seq ∉ consumedSeqs c.trace :=
+  h.not_consumed_while_stored hs he
+
+/-- … and when the program has ended, or whenever `emptyQueue` answers `true`, every event ever
+    enqueued has been consumed exactly once (see also `C11_empty_means_consumed`). -/
+theorem C05_all_consumed (b : QBeh) (c : QCfg) (h : Reachable b c) (he : c.emptyQueue = true) :
+    (consumedSeqs c.trace).Perm (List.range c.nextSeq) :=
+  (h.empty_consumed he).2.2.2
+
+/-- The same for `runN`. -/
+theorem C05_exactly_once_runN (b : QBeh) (n : Nat) (c0 : QCfg) (h0 : Init c0) :
+    let c := (QCfg.runN b n c0).1
+    (seqsOf c.queue ++ seqsOf c.inflight ++ consumedSeqs c.trace).Perm (List.range c.nextSeq) :=
+  ((Reachable.init h0).runN (b := b) n).once_perm
+
+/-! ### arguments intact -/
+
+/-- **C05 (arguments intact), static part.** Every occupied slot anywhere holds an event enqueued
+    earlier (`seq < nextSeq`), and no two slots hold events with the same sequence number: a stored
+    event is identified by its sequence number. -/
+theorem C05_args_intact (b : QBeh) (c : QCfg) (h : Reachable b c) :
+    (∀ s ∈ c.queue ++ c.inflight, ∀ e, s.ev = some e → e.seq < c.nextSeq) ∧
+    (c.queue ++ c.inflight).Pairwise
+      (fun s t => ∀ e1 e2, s.ev = some e1 → t.ev = some e2 → e1.seq ≠ e2.seq) :=
+  ⟨fun _ hs _ he => h.seq_lt hs he, h.seq_unique⟩
+
+/-- **C05 (arguments intact), dynamic part.** A step never alters a stored event: every event
+    stored after a step whose sequence number existed before the step was stored before the step
+    with the same key and the same argument (events are compared as triples `seq, key, arg`).
+    Together with `C05_args_intact`: from `enqueue` until it is consumed, the event with a given
+    sequence number keeps its key and argument, however often its slot is spliced between lists. -/
+theorem C05_args_intact_step (b : QBeh) (c c' : QCfg) (h : Reachable b c)
+    (hs : QCfg.step b c = some c') (s' : Slot) (e : QEvent)
+    (hm : s' ∈ c'.queue ++ c'.inflight) (he : s'.ev = some e) (hlt : e.seq < c.nextSeq) :
+    ∃ s ∈ c.queue ++ c.inflight, s.ev = some e :=
+  h.args_intact_step hs hm he hlt
+
+/-- The dispatch of a queued event runs the filters and listeners of exactly its key with exactly
+    its argument (`process`, `processOne`; also after the predicate accepted, see `QCfg.step`). -/
+theorem C05_dispatch_args (b : QBeh) (c : QCfg) (mode : PMode) (s : Slot)
+    (rest kept idle : List Slot) (below : List QFrame) (e : QEvent) (he : s.ev = some e)
+    (hm : mode.hasPred = false) :
+    QCfg.procNext b c mode (s :: rest) kept idle below =
+      QCfg.nextFilter b c e.key e.arg c.filters (.proc mode (s :: rest) kept idle .disp :: below) :=
+  procNext_dispatch b c mode s rest kept idle below e he hm
+
+/-- The predicate of `processIf`/`processUntil` is called with exactly the event's key and
+    argument. -/
+theorem C05_pred_args (b : QBeh) (c : QCfg) (mode : PMode) (p : Cb) (s : Slot)
+    (rest kept idle : List Slot) (below : List QFrame) (e : QEvent) (he : s.ev = some e)
+    (hm : mode = .ifp p ∨ mode = .untilp p) :
+    QCfg.procNext b c mode (s :: rest) kept idle below =
+      { c with
+        trace := .call ⟨.pred, e.key, 0, p, e.arg⟩ :: c.trace
+        stack := .prog (QCfg.callProg b c ⟨.pred, e.key, 0, p, e.arg⟩) ::
+                 .proc mode (s :: rest) kept idle .pred :: below } :=
+  procNext_pred b c mode p s rest kept idle below e he hm
+
+/-! ### FIFO -/
+
+/-- **C05 (FIFO), `std::list` policy.** Take the running processing calls from the outermost to
+    the innermost, of each the declined events followed by the events not yet examined
+    (`pendS c.stack`), then the queue: the sequence numbers are strictly increasing (and below
+    `nextSeq`). -/
+theorem C05_fifo (b : QBeh) (c : QCfg) (h : Reachable b c) (ho : c.ordered = none) :
+    (seqsOf (pendS c.stack ++ c.queue)).Pairwise (· < ·) ∧
+    ∀ n ∈ seqsOf (pendS c.stack ++ c.queue), n < c.nextSeq :=
+  ⟨h.fifo ho, h.fifo_lt⟩
+
+/-- The pending queue is always in enqueue order. -/
+theorem C05_queue_in_order (b : QBeh) (c : QCfg) (h : Reachable b c) (ho : c.ordered = none) :
+    (seqsOf c.queue).Pairwise (· < ·) :=
+  h.queue_sorted ho
+
+/-- For every running processing call: the events the predicate declined, then the events still
+    to be examined, then everything in the queue (in particular everything enqueued since the call
+    started) are in enqueue order.  So a processing call dispatches the events it took in enqueue
+    order (it always dispatches the head of `todo`), and the declined events, which `finishProc`
+    puts back as `kept ++ queue`, stay ahead of newer events in their original order. -/
+theorem C05_frame_in_order (b : QBeh) (c : QCfg) (h : Reachable b c) (ho : c.ordered = none)
+    (mode : PMode) (todo kept idle : List Slot) (ph : Phase)
+    (hm : QFrame.proc mode todo kept idle ph ∈ c.stack) :
+    (seqsOf (kept ++ todo ++ c.queue)).Pairwise (· < ·) :=
+  h.frame_sorted ho hm
+
+/-- Events enqueued while a processing call runs are not dispatched by it: an `enqueue` issued
+    anywhere (e.g. by a listener) appends the new event, with the next sequence number, to `queue`
+    and leaves the slot lists of all running processing calls as they are; a processing call only
+    ever dispatches from its own `todo` (`QCfg.endDispatch`, `QCfg.procNext`). -/
+theorem C05_enqueue_goes_to_queue (b : QBeh) (c : QCfg) (key arg : Nat) (k : QRes → QProg)
+    (rest : List QFrame) (hst : c.stack = .prog (.op (.enqueue key arg) k) :: rest) :
+    ∃ c', QCfg.step b c = some c' ∧ c'.inflight = c.inflight ∧ c'.nextSeq = c.nextSeq + 1 ∧
+      pendS c'.stack = pendS c.stack ∧
+      ∃ s, s.ev = some ⟨c.nextSeq, key, arg⟩ ∧ c'.queue = QCfg.settle c.ordered (c.queue ++ [s]) :=
+  step_enqueue b c key arg k rest hst
+
+/-! ### results -/
+
+/-- **C05 (results).**
+    1. A processing call on an empty queue delivers `false` and touches nothing.
+    2. On a non-empty queue it takes the whole queue (`processOne`: the first event) into a new
+       frame above the suspended caller and starts examining it.
+    3. When it ends it delivers `procResult mode idle`: `true` for `process`/`processOne`,
+       "`idle` is non-empty" for `processIf`/`processUntil`; the declined slots go back in front
+       of the queue, the idle ones to the free list, the guard is dropped.
+    4. `idle` is exactly the list of slots whose dispatch by this call has ended: by
+       `C05_step_views` every machine step acts on the slot lists as a sequence of the transitions
+       `VStep` (Q/Inv.lean), of which `start` creates a frame with `idle = []`, `clearHead` (the end
+       of a dispatch) appends one slot to `idle`, `decline` and all others leave it alone.
+    5. `peek`/`take` return the key and argument of the queue head iff the queue is non-empty
+       (`C05_peek_take`). -/
+theorem C05_results (b : QBeh) (c : QCfg) (mode : PMode) (k : QRes → QProg) (rest : List QFrame) :
+    (c.queue = [] → QCfg.startProc b c mode k rest =
+      { c with stack := .prog (k (.bool false)) :: rest, trace := .res (.bool false) :: c.trace }) ∧
+    (c.queue ≠ [] → QCfg.startProc b c .one k rest =
+      QCfg.procNext b { c with queue := c.queue.drop 1, ec := c.ec + 1 } .one (c.queue.take 1) [] []
+        (.wait k :: rest)) ∧
+    (c.queue ≠ [] → mode ≠ .one → QCfg.startProc b c mode k rest =
+      QCfg.procNext b { c with queue := [], ec := c.ec + 1 } mode c.queue [] [] (.wait k :: rest)) ∧
+    (∀ kept idle, QCfg.finishProc c mode kept idle (.wait k :: rest) =
+      { c with
+        queue := putBack c.ordered kept c.queue
+        free := recycle c.ordered c.free idle
+        ec := c.ec - 1
+        stack := .prog (k (.bool (procResult mode idle))) :: rest
+        trace := .res (.bool (procResult mode idle)) :: c.trace }) ∧
+    (∀ idle, procResult .all idle = true ∧ procResult .one idle = true) ∧
+    (∀ p idle, procResult (.ifp p) idle = !idle.isEmpty ∧ procResult (.untilp p) idle = !idle.isEmpty) :=
+  ⟨startProc_empty b c mode k rest, startProc_one b c k rest, startProc_whole b c mode k rest,
+   fun kept idle => finishProc_wait c mode kept idle k rest, fun _ => ⟨rfl, rfl⟩, fun _ _ => ⟨rfl, rfl⟩⟩
+
+/-- Every step of a reachable configuration acts on the slot lists, the guard, the counters and
+    the consumed events as a finite sequence of the abstract transitions `VStep`. -/
+theorem C05_step_views (b : QBeh) (c c' : QCfg) (h : Reachable b c) (hs : QCfg.step b c = some c') :
+    VSteps (view c) (view c') :=
+  h.step_views hs
+
+/-- `peekEvent`/`takeEvent` report `false` iff the queue is empty; otherwise they return the key and
+    argument of the queue head, and `takeEvent` removes it and consumes it. -/
+theorem C05_peek_take (b : QBeh) (c : QCfg) (h : Reachable b c) :
+    (c.queue = [] → c.apply .peek = (c, .bool false) ∧ c.apply .take = (c, .bool false)) ∧
+    (∀ s r, c.queue = s :: r → ∃ e, s.ev = some e ∧
+      c.apply .peek = (c, .ev e.key e.arg) ∧
+      (c.apply .take).2 = .ev e.key e.arg ∧ (c.apply .take).1.queue = r ∧
+      (c.apply .take).1.trace = .consumed e.seq 1 :: c.trace) := by
+  refine ⟨fun hq => ⟨h.peek_result.1 hq, h.take_result.1 hq⟩, ?_⟩
+  intro s r hq
+  obtain ⟨e, he, hp⟩ := h.peek_result.2 s r hq
+  obtain ⟨e', he', ht⟩ := h.take_result.2 s r hq
+  cases he.symm.trans he'
+  exact ⟨e, he, hp, ht⟩
+
+/-! ### non-vacuity
+
+`Demo.main`: `listen 0 1; enqueue 0 10; enqueue 0 11; enqueue 0 12; processIf 7; process; emptyq`
+where listener 1 enqueues (0, 99) on its first call and predicate 7 declines argument 11. -/
+
+example : Reachable Demo.beh (Demo.at_ 10) := Demo.at_reachable 10
+
+/-- step 10: `processIf` has dispatched event 0 (whose listener enqueued event 3), has declined
+    event 1 and is asking the predicate about event 2 -/
+example : seqsOf (Demo.at_ 10).queue = [3] ∧ seqsOf (pendS (Demo.at_ 10).stack) = [1, 2] ∧
+    consumedSeqs (Demo.at_ 10).trace = [0] ∧ (Demo.at_ 10).nextSeq = 4 := by decide +kernel
+
+/-- step 13, after `processIf` (which delivered `true`): the declined event 1 is ahead of the
+    newer event 3, with their arguments; events 0 and 2 were dispatched -/
+example : (Demo.at_ 13).queue = [⟨1, some ⟨1, 0, 11⟩⟩, ⟨3, some ⟨3, 0, 99⟩⟩] ∧
+    consumedSeqs (Demo.at_ 13).trace = [2, 0] ∧
+    (Demo.at_ 13).trace.head? = some (.res (.bool true)) := by decide +kernel
+
+/-- the run ends after 20 steps; every event was dispatched exactly once (trace newest first),
+    the listener saw the arguments 10, 12, 11, 99 in this order -/
+example : (QCfg.runN Demo.beh 20 Demo.c0).2 = true ∧
+    consumedSeqs (Demo.at_ 20).trace = [3, 1, 2, 0] ∧
+    ((Demo.at_ 20).trace.filterMap (fun ev => match ev with
+      | .call ⟨.listener, _, _, _, a⟩ => some a | _ => none)) = [99, 11, 12, 10] := by decide +kernel
+
+end Evp.Q
